@@ -177,3 +177,8 @@ _add_family(globals(), _gc, 'gonecond', _gc.oracle, share=0.04)
 # updates whose value is falsy (0, False, '') are updates: never lost, whatever the port is wired to
 from harness import falsymulti as _fm                   # noqa: E402
 _add_family(globals(), _fm, 'falsymulti', _fm.oracle, share=0.03)
+
+
+# updates through a glob port wired with a dictionary topology, tick after tick
+from harness import globdict as _gd                     # noqa: E402
+_add_family(globals(), _gd, 'globdict', _gd.oracle, share=0.03)
